@@ -305,6 +305,8 @@ def to_filters(chain):
 # --- passwords ------------------------------------------------------------------------------------
 def gen_password(rng):
     return rng.wpick([(4, "secret"), (2, "pässwörd"), (1, ""), (1, "🔑key𝕏"), (1, "a"), (1, "with space and a much longer pass phrase 0123456789"),
+                      # not in any Unicode normal form: the key is derived from the code units as given
+                      (2, rng.pick(["e\u0301cole", "\u1112\u1161\u11ab\u1100\u1173\u11af", "\u212bngstro\u0308m", "A\u030a\u00c5\u212b", "\ufb01\u1e9b\u0323"])),
                       (2, "".join(rng.pick(_ASCII + _BMP) for _ in range(rng.randint(1, 12))))])
 
 
